@@ -447,7 +447,32 @@ func c12Program(s Src, maxOps int) (string, *C12Expect) {
 				absent = append(absent, k)
 			}
 		}
-		kind := Pick(s, "failkind", []string{"read-absent", "delete-absent", "dot-on-number", "write-on-number", "read-absent-child", "dot-on-nil", "read-absent-deep", "read-absent-deep"})
+		kind := Pick(s, "failkind", []string{"read-absent", "delete-absent", "dot-on-number", "write-on-number", "read-absent-child", "dot-on-nil", "read-absent-deep", "read-absent-deep", "delete-near-miss", "delete-near-miss", "read-near-miss"})
+		// a key that is absent but differs from a present one only in letter case or
+		// in the encoding of a letter (canonically equivalent, different code points)
+		nearVar, nearKey := "", ""
+		for _, nv := range g.order {
+			for _, pk := range sortedKeys(g.heap[g.vars[nv]]) {
+				cand := ""
+				switch {
+				case pk == "\u09ac\u09df\u09b8":
+					cand = "\u09ac\u09af\u09bc\u09b8" // য় decomposed
+				case pk[0] < 0x80:
+					cand = strings.ToUpper(pk)
+					if cand == pk {
+						cand = strings.ToLower(pk)
+					}
+				}
+				if cand != "" && cand != pk {
+					if _, present := g.heap[g.vars[nv]][cand]; !present && nearVar == "" {
+						nearVar, nearKey = nv, cand
+					}
+				}
+			}
+		}
+		if (kind == "delete-near-miss" || kind == "read-near-miss") && nearVar == "" {
+			kind = "delete-absent"
+		}
 		var deepVar, deepKey, deepAbsent string
 		for _, dv := range g.order {
 			for _, dk := range sortedKeys(g.heap[g.vars[dv]]) {
@@ -482,6 +507,10 @@ func c12Program(s Src, maxOps int) (string, *C12Expect) {
 			failLine = g.add(fmt.Sprintf("%s %s.nochild.alpha;", KwPrint, v))
 		case "dot-on-nil":
 			failLine = g.add(fmt.Sprintf("%s (nil).alpha;", KwPrint))
+		case "delete-near-miss":
+			failLine = g.add(fmt.Sprintf("%s(%s, \"%s\");", FnDelete, nearVar, nearKey))
+		case "read-near-miss":
+			failLine = g.add(fmt.Sprintf("%s %s.%s;", KwPrint, nearVar, nearKey))
 		case "read-absent-deep":
 			// every hop exists, only the last property is absent
 			failLine = g.add(fmt.Sprintf("%s %s.%s.%s;", KwPrint, deepVar, deepKey, deepAbsent))
